@@ -151,6 +151,9 @@ def oracle(chk, car, args, case, out, mto, m_rem, cls):
         nzm = [j for j, v in enumerate(dM[k]) if v != 0]
         if k != cls and (nzr or nzm):
             chk.fail("remnants appear only in the class dictated by the IFMR", case, dict(cls=k, predicted=cls))
+        if k == cls and nz and frem[k] == 0 and (nzr or nzm):
+            chk.fail("remnant flux equals the stars leaving times the class retention fraction", case,
+                     dict(cls=k, dNr=[dN[k][j] for j in nzr][:3], dNs=x, frem_from_constructor=0.0))
         if k == cls and nz and m_rem > 0 and frem[k] > 0:
             b = getattr(mb.bins, k)
             bl, bu = np.atleast_1d(b.lower), np.atleast_1d(b.upper)
